@@ -38,8 +38,9 @@ structure Ghost where
   tunnels : String → Option GT
   addrs : String → Option GA
   bridges : Nat → String → Bool
+  inflight : Nat → String → Option (Option GT)   -- what a slow lookup read when the store answered it
 
-def Ghost.init : Ghost := ⟨wall0, rclk0, fun _ => none, fun _ => none, fun _ _ => false⟩
+def Ghost.init : Ghost := ⟨wall0, rclk0, fun _ => none, fun _ => none, fun _ _ => false, fun _ _ => none⟩
 
 /-- The records are kept by a Redis server (its clock decides the key TTL). -/
 def onRedis : Backend → Bool
@@ -51,6 +52,10 @@ def onRedis : Backend → Bool
 not yet expired on the Redis clock. -/
 def liveT (b : Backend) (g : Ghost) (t : GT) : Bool :=
   decide (g.wall ≤ t.wallAt + t.ttl) && (!onRedis b || decide (g.rclk < t.storeAt + t.ttl))
+
+/-- The store still hands the record out (key TTL on the clock of the store that carries it). -/
+def storeLiveT (b : Backend) (g : Ghost) (t : GT) : Bool :=
+  if onRedis b then decide (g.rclk < t.storeAt + t.ttl) else decide (g.wall ≤ t.wallAt + t.ttl)
 
 def liveA (b : Backend) (g : Ghost) (a : GA) : Bool :=
   if onRedis b then decide (g.rclk < a.storeAt + nodeAddrTTL) else decide (g.wall ≤ a.wallAt + nodeAddrTTL)
@@ -131,6 +136,14 @@ def check (cfg : Cfg) (g : Ghost) : Ev → Res → Bool
     | some t => isFoundAs t res
     | none => if tid == "" then res == .errStorage else res == .timeout
   | .restart _, res => res == .skip
+  | .slowBegin _ tid, res => if tid == "" then res == .errParam else res == .pending
+  | .slowEnd n tid, res =>
+    -- a lookup is judged against what was registered when the store answered it; lookups that start
+    -- later are ordinary `look` events and are judged against the state at their own start
+    match g.inflight n tid with
+    | none => res == .skip
+    | some none => res == .notFound
+    | some (some t) => if g.wall ≤ t.wallAt + t.ttl then isFoundAs t res else res == .expired
 
 def gstep (cfg : Cfg) (g : Ghost) : Ev → Ghost
   | .reg n r => if r.tunnelID == "" then g else setT g r.tunnelID (some ⟨r, tableTTL cfg n, g.wall, g.rclk⟩)
@@ -155,7 +168,18 @@ def gstep (cfg : Cfg) (g : Ghost) : Ev → Ghost
   | .fwd _ _ => g
   | .pollStart _ _ _ => g
   | .pollEnd _ _ => g
-  | .restart n => { g with bridges := fun m t => if m = n then false else g.bridges m t }
+  | .restart n => { g with bridges := fun m t => if m = n then false else g.bridges m t,
+                           inflight := fun m t => if m = n then none else g.inflight m t }
+  | .slowBegin n tid =>
+    if tid == "" then g
+    else
+      { g with inflight := fun m t =>
+          if m = n ∧ t = tid then
+            some (match g.tunnels tid with
+                  | some x => if storeLiveT cfg.backend g x then some x else none
+                  | none => none)
+          else g.inflight m t }
+  | .slowEnd n tid => { g with inflight := fun m t => if m = n ∧ t = tid then none else g.inflight m t }
 
 def holdsFrom (cfg : Cfg) (g : Ghost) : List Ev → List Res → Bool
   | [], [] => true
@@ -191,6 +215,8 @@ def wfEv (b : Backend) : Ev → Bool
   | .fwd n _ => wfNode b n
   | .pollStart n _ _ => wfNode b n
   | .pollEnd n _ => wfNode b n
+  | .slowBegin n _ => wfNode b n
+  | .slowEnd n _ => wfNode b n
   | .restart _ => b != .hybridLocal   -- without a shared cache a restart loses the records themselves
   | _ => true
 
